@@ -503,6 +503,9 @@ func (g *gen) list(prefix string, level, depth int, menu bool) *node {
 	tag := "ul"
 	if g.chance(0.35) {
 		tag = "ol"
+	} else if g.chance(0.12) {
+		tag = "menu" // the HTML Standard's other spelling of an unordered list
+		g.feat("list:menu")
 	}
 	g.feat("list")
 	if level > 0 {
